@@ -169,7 +169,9 @@ func registerTiKV(e *Engine) {
 	e.reg("(*"+txnkvPkg+".Client).GetSnapshot", func(in *interp, fr *frame, a []value) value {
 		return snapshot(in, clientStore(in, a[0]), term(a[1]))
 	})
-	oracle := func(in *interp, st *tkStore) value { return iface{t: in.eng.opaqueType("tikv.oracle"), v: &tkOracle{st}} }
+	oracle := func(in *interp, st *tkStore) value {
+		return iface{t: in.eng.opaqueType("tikv.oracle"), v: &tkOracle{st}}
+	}
 	e.reg("(*"+tikvPkg+".KVStore).GetOracle", func(in *interp, fr *frame, a []value) value { return oracle(in, storeOf(a[0])) })
 	e.reg("(*"+txnkvPkg+".Client).GetOracle", func(in *interp, fr *frame, a []value) value { return oracle(in, clientStore(in, a[0])) })
 	pdc := func(in *interp) value { return iface{t: in.eng.opaqueType("pd.client"), v: &tkPD{in}} }
